@@ -328,11 +328,24 @@ pub fn run_chunked(sh: &mut Shards, cfg: &EHistCfg, items: &[u32], chunk_items: 
     if thinned() {
         return;
     }
+    let old_min: usize = if cfg.repl { 14 } else { 4 };
     let cfg = &overridden(cfg);
     let repl = cfg.repl;
+    let new_min: usize = if repl { 14 } else { 4 };
     let caps0 = caps;
     let salt = rot();
-    let mut caps = |i: usize| cap_override_i(repl, caps0(i), i, salt);
+    // capacities are meant relative to the documented minimum: keep that when replacement is overridden
+    let mut caps = |i: usize| {
+        cap_override_i(
+            repl,
+            match caps0(i) {
+                CapSpec::Fixed(c) => CapSpec::Fixed((c + new_min).saturating_sub(old_min)),
+                q => q,
+            },
+            i,
+            salt,
+        )
+    };
     let text = prepare(items, cfg.source);
     let mut h = EHist::begin(sh, cfg, true);
     let total = *text.bounds.last().unwrap();
